@@ -385,6 +385,25 @@ func (ex *Exec) sprintf(st *State, f string, va Slice) (Str, fmtStatus) {
 			out = append(out, s.B...)
 			continue
 		}
+		if spec == "%#v" {
+			// Go-syntax rendering: natively, on a deep copy of a fully concrete value of the shapes ECAL values have
+			if txt, ok := ex.goSyntax(st, a); ok {
+				out = append(out, ex.strConst(txt).B...)
+				continue
+			}
+		}
+		if verb == 'T' && len(spec) == 2 {
+			// the dynamic type, spelled as package reflect spells it
+			ts := "<nil>"
+			if ifc.T != nil {
+				ts = strings.ReplaceAll(reflTypeString(ifc.T), "interface{}", "interface {}")
+				if ts == "any" {
+					ts = "interface {}"
+				}
+			}
+			out = append(out, ex.strConst(ts).B...)
+			continue
+		}
 		// other verbs / flags: concrete scalars and strings only
 		switch x := ifc.V.(type) {
 		case Str:
@@ -574,4 +593,25 @@ func (ex *Exec) nativeErrorStr(st *State, msg Str) Value {
 	t := pkg.Type("errorString")
 	id := st.alloc(&Object{V: Struct{msg}})
 	return Iface{T: typesPointer(t.Type()), V: Ptr{Obj: id}}
+}
+
+// goSyntax renders v with %#v when it converts to plain Go data (nil, bool, float64, string, []interface{}, maps).
+func (ex *Exec) goSyntax(st *State, v Value) (txt string, ok bool) {
+	defer func() {
+		if r := recover(); r != nil {
+			switch r.(type) {
+			case jsonUnsupported, jsonFailed, jsonPending:
+				txt, ok = "", false
+			default:
+				panic(r)
+			}
+		}
+	}()
+	ex.jsonDepth = 0
+	g := ex.toGoDeep(st, v, nil)
+	switch g.(type) {
+	case nil, bool, float64, string, []interface{}, map[interface{}]interface{}, map[string]interface{}:
+		return fmt.Sprintf("%#v", g), true
+	}
+	return "", false
 }
